@@ -547,10 +547,38 @@ func (g *Gen) lookup(fn *ssa.Function, st *State, x *ssa.Lookup) {
 // next models one step of a `range` over a string: (ok, index, rune).
 func (g *Gen) next(st *State, x *ssa.Next) {
 	it := g.val(st, x.Iter)
-	if !x.IsString || it.Elem == nil || it.Elem.Kind != "str" {
-		panic(oos("range over map"))
+	if it.Elem == nil {
+		panic(oos("range iterator"))
 	}
-	panic(oos("range over string handled by loop lemma support (not yet)"))
+	if !x.IsString && it.Elem.Kind == "map" {
+		// One step of a map iteration, over-approximated: it may stop at any time and otherwise yields
+		// SOME key of the map with its value (no order, distinctness or coverage is promised; loop
+		// invariants must therefore be order-independent).
+		m := *it.Elem
+		if st.mdom[m.Ref] == "" {
+			panic(oos("range over a map that is not modelled"))
+		}
+		ok := g.newSym("next_ok", "Bool")
+		mt := m.Ty.Underlying().(*types.Map)
+		k := g.symFor(mt.Key(), "next_key", st)
+		if k.Kind != "int" {
+			panic(oos("range over a map with non-integer keys"))
+		}
+		g.assume(st, fmt.Sprintf("(=> %s (select %s %s))", ok, st.mdom[m.Ref], k.T))
+		kind := "int"
+		if g.mapValKind[m.Ref] == "garrbool" {
+			kind = "bool"
+		}
+		v := Val{Kind: kind, T: fmt.Sprintf("(select %s %s)", st.mval[m.Ref], k.T)}
+		g.regs[x] = Val{Kind: "tuple", Tup: []Val{{Kind: "bool", T: ok}, k, v}}
+		return
+	}
+	if x.IsString && it.Elem.Kind == "str" {
+		// One step of a string iteration at byte index i (hidden iterator state): yields (ok, i, r)
+		// with r = the byte itself for ASCII and some rune >= 0x80 otherwise; advances by 1..4 bytes.
+		panic(oos("range over string (not modelled yet)"))
+	}
+	panic(oos("range over " + it.Elem.Kind))
 }
 
 func (g *Gen) typeAssert(st *State, x *ssa.TypeAssert) {
